@@ -49,7 +49,7 @@ Definition fheight (l : list call) : nat := fold_right Nat.max 0%nat (map height
 
 (* a recorded call is written when a call below it was written or it ran longer than the threshold *)
 Definition keep (c : cfg) (t0 t1 : N) (gk : list call) : bool :=
-  negb (is_nil gk) || (threshold c <? tdelta t1 t0)%N.
+  negb (is_nil gk) || (threshold c <=? tdelta t1 t0)%N.
 
 (* the forest that is recorded: inF = inside an -F function, lv = levels used since the last reset *)
 Fixpoint sel (c : cfg) (inF : bool) (lv : N) (n : call) : list call :=
@@ -210,7 +210,7 @@ Section Rec.
 
   Lemma leave_rec (flt wr : bool) f t0 t1 i dp0 dp stk ri ou hk : (t0 < t1)%N -> (t1 < two64)%N ->
     MC.dstep mc (mk i 0 dp0 (Fr flt false false wr f t0 0 ri dp :: stk) (ri + 1) ou, true :: hk) (MC.Leave t1)
-    = (if wr || (threshold c <? tdelta t1 t0)%N
+    = (if wr || (threshold c <=? tdelta t1 t0)%N
        then mk (if flt then i - 1 else i) 0 dp (if wr then stk else markw stk) ri
                (ou ++ (if wr then [] else pend stk ++ [mflat_rec false ri t0 f]) ++ [mflat_rec true ri t1 f])
        else mk (if flt then i - 1 else i) 0 dp stk ri ou, hk).
@@ -220,7 +220,7 @@ Section Rec.
     assert (Ht1 : (t1 =? 0)%N = false) by lia.
     mstep. cbn -[N.modulo N.add N.sub N.ltb MC.flush_anc]. rewrite Hcl. cbn -[N.modulo N.add N.sub N.ltb MC.flush_anc].
     rewrite Hri.
-    destruct (threshold c <? (t1 + 18446744073709551616 - t0) mod 18446744073709551616)%N eqn:EL;
+    destruct (threshold c <=? (t1 + 18446744073709551616 - t0) mod 18446744073709551616)%N eqn:EL;
       cbn -[N.modulo N.add N.sub N.ltb MC.flush_anc]; unfold MC.record_trace_data; cbn -[MC.flush_anc];
       destruct wr; cbn -[MC.flush_anc]; rewrite ?Ht1;
       try (destruct flt; reflexivity);
@@ -303,7 +303,7 @@ Section Rec.
         destruct (flat_map (sel c true 1) ks) as [|x g'] eqn:Eg.
         * cbn [after]. cbn [MC.exec fold_left]. rewrite (leave_rec true false f t0 t1 (i + 1) 1%N dp stk ri ou hk H01 H1).
           unfold keep. cbn [is_nil negb orb]. rewrite Z.add_simpl_r.
-          destruct (threshold c <? tdelta t1 t0)%N; [|reflexivity].
+          destruct (threshold c <=? tdelta t1 t0)%N; [|reflexivity].
           cbn [after flat_map mflat]. unfold mk. rewrite app_nil_r.
           rewrite <- ?app_assoc. reflexivity.
         * cbn [after]. destruct (markw_cons true f t0 ri dp stk) as [M P]. rewrite M, P.
@@ -341,7 +341,7 @@ Section Rec.
              ++ cbn [after]. cbn [MC.exec fold_left].
                 rewrite (leave_rec false false f t0 t1 i (dp + 1)%N dp stk ri ou hk H01 H1).
                 unfold keep. cbn [is_nil negb orb].
-                destruct (threshold c <? tdelta t1 t0)%N; [|reflexivity].
+                destruct (threshold c <=? tdelta t1 t0)%N; [|reflexivity].
                 cbn [after flat_map mflat]. unfold mk. rewrite app_nil_r. rewrite <- ?app_assoc. reflexivity.
              ++ cbn [after]. destruct (markw_cons false f t0 ri dp stk) as [M P]. rewrite M, P.
                 cbn [MC.exec fold_left].
@@ -407,7 +407,7 @@ Proof.
     rewrite (flat_map_nil (tprune c (threshold c)) ks) by (eapply Forall_impl; [|exact K]; cbn; intros k [H _]; exact H).
     rewrite (tdelta_sub t0 t1) by lia. replace (t1 - t0 <? threshold c)%N with true by lia. reflexivity.
   - intros inF lv. cbn [sel]. rewrite !Ks. unfold keep. cbn [is_nil negb orb].
-    rewrite (tdelta_sub t0 t1) by lia. replace (threshold c <? t1 - t0)%N with false by lia.
+    rewrite (tdelta_sub t0 t1) by lia. replace (threshold c <=? t1 - t0)%N with false by lia.
     destruct (q_filter (trig_of c f)) as [[|]|]; try reflexivity.
     destruct (fmode_in c && negb inF); [reflexivity|]. destruct (Z.to_N (gdepth c) <=? lv)%N; reflexivity.
 Qed.
@@ -449,7 +449,7 @@ Proof.
   cbn [height] in Hb. fold (fheight ks) in Hb.
   destruct (Htr f) as (Q1 & Q2 & Q3 & Q4 & Q5 & Q6 & Q7).
   cbn [flat_map vis sel]. rewrite app_nil_r. rewrite Q1, Q7, (Hp f), (loc_free_hidden c f Hlf).
-  unfold keep. replace (threshold c <? tdelta t1 t0)%N with true by lia. rewrite !orb_true_r.
+  unfold keep. replace (threshold c <=? tdelta t1 t0)%N with true by lia. rewrite !orb_true_r.
   destruct (q_filter (trig_of c f)) as [[|]|] eqn:Ef.
   - (* -F *)
     cbn [negb andb orb]. replace (gdepth c <=? 0) with false by lia. cbn [orb].
